@@ -49,6 +49,8 @@ def run(tier):
     _c_seed_formula(chk)
     _d_direction(chk)
     _e_forwarding(chk)
+    _e_energy_measure(chk)
+    _b_private_pipeline(chk)
     # a cached manifold is the one computed with the requested guards; every integration method gets the direction-wrapped system
     from . import c20, c10
     from .common import Relabel
@@ -58,6 +60,103 @@ def run(tier):
 
 
 PARAMS = ("step", "integration_fraction", "NN", "displacement", "method", "order", "dt", "energy_tol", "safe_distance")
+
+
+def _b_private_pipeline(chk):
+    """The eigenvectors a manifold reads are those of its own orbit's monodromy: compute_stability() hands out the stability
+    pipeline object itself (it holds the last decomposition), so two manifold services must never hold the same pipeline
+    object.  Two model services ask for `generator` in one interpreter (module-level state persists), the pipeline
+    constructor is stubbed to return a fresh object per call; the two results must be different objects, and a second
+    access on the same service returns the first."""
+    mod, cls = ri.find_def(MAN, "_ManifoldDynamicsService")
+    made = []
+
+    def ctor(ip_, a, k):
+        o = SymObj(None, {"config": k.get("config", a[0] if a else None)}, f"pipeline{len(made)}")
+        made.append(o)
+        return o
+
+    cfg = SymObj(None, {}, "frozen-config")
+    ip = Interp(overrides={"with_default_engine": ctor})
+    got = {}
+    for tag in ("A", "B"):
+        svc = SymObj(ClassRef(mod, cls), {"_generator": None, "eigendecomposition_config": cfg, "_eigendecomposition_config": cfg,
+                                         "domain_obj": SymObj(None, {}, f"manifold{tag}"), "_domain_obj": SymObj(None, {}, f"manifold{tag}")}, f"svc{tag}")
+        try:
+            got[tag] = (ip.getattr(svc, "generator"), ip.getattr(svc, "generator"))
+        except OutsideFragment as exc:
+            raise AnalysisError(f"_ManifoldDynamicsService.generator outside fragment: {exc}")
+    chk.count("functions partially evaluated")
+    if not made:
+        raise AnalysisError("anchor: _ManifoldDynamicsService.generator no longer builds a StabilityPipeline")
+    c = f"{MAN}::_ManifoldDynamicsService.generator"
+    chk.check(got["A"][0] is got["A"][1] and got["B"][0] is got["B"][1], "C12.b-pipeline", c + "[stable slot]",
+              "two reads of generator on one service give different pipeline objects: the decomposition computed on the first is lost",
+              sample="svc.generator is svc.generator")
+    chk.check(got["A"][0] is not got["B"][0], "C12.b-pipeline", c + "[private]",
+              "two manifold services with equal configuration hold the same stability pipeline object: the pipeline keeps its last "
+              "decomposition and compute_stability() returns the pipeline itself, so one manifold reads the eigenvectors of the "
+              "other's orbit", sample="svcA.generator is not svcB.generator (equal frozen config)")
+
+
+def _e_energy_measure(chk):
+    """What the retention filter compares with energy_tol is max_i |C_i - C_0| / |C_0| (absolute when |C_0| <= 1e-14), with
+    C the Jacobi constant of the field: _max_rel_energy_error is interpreted on concrete three-sample histories of the
+    Jacobi value (the nested formula abstracted to a projection) covering upward, downward and mixed drift, a negative
+    and a vanishing reference; the nested formula itself is decided against the field (zero Lie derivative)."""
+    R = sp.Rational
+    ENERGY = common.ENERGY
+    mu0 = R(1, 10)
+    # states on the x axis (r1, r2 rational): the Jacobi value is x^2 + 2(mu1/r1 + mu2/r2) - v^2, exactly K = 15/4 - v^2 at x = 1/2
+    K = R(1, 4) + 2 * (R(9, 10) / R(3, 5) + R(1, 10) / R(2, 5))
+    hist = {"upward drift": (1, R(1, 2), R(3, 4)), "downward drift": (R(1, 2), 1, R(3, 4)), "mixed, down larger": (1, R(3, 4), 2),
+            "negative reference": (R(5, 2), 3, R(9, 4)), "no drift": (1, 1, 1), "later sample larger": (1, R(3, 4), R(1, 4)), "single sample": (1,)}
+    for name, vs in hist.items():
+        states = np.empty((len(vs), 6), dtype=object)
+        for i, v in enumerate(vs):
+            states[i, :] = [R(1, 2), S(0), S(0), S(v), S(0), S(0)]
+        cs = [K - S(v) ** 2 for v in vs]
+        try:
+            got = S(Interp().call_function(ENERGY, "_max_rel_energy_error", [states, mu0]))
+        except OutsideFragment as exc:
+            raise AnalysisError(f"_max_rel_energy_error outside fragment: {exc}")
+        devs = [abs(c - cs[0]) for c in cs[1:]] or [S(0)]
+        want = max(devs) / abs(cs[0])
+        chk.check(sp.simplify(got - want) == 0, "C12.e", f"{ENERGY}::_max_rel_energy_error[{name}]",
+                  f"Jacobi history {cs}: the measured drift is {got}, the largest relative deviation from the first sample is {want}: "
+                  f"a trajectory whose Jacobi constant leaves the tolerance is retained (or a good one dropped)",
+                  sample=f"Jacobi history {cs} -> {want}")
+    # vanishing reference (absolute deviation): reachable only by abstracting the nested formula to a projection
+    used = []
+
+    def proj(ip_, a, k):
+        used.append(1)
+        return a[0]
+
+    cs = (0, R(-1, 8), R(1, 16))
+    states = np.empty((3, 6), dtype=object)
+    for i, c in enumerate(cs):
+        states[i, :] = [S(c), R(1, 3 + i), R(1, 5 + i), R(1, 7), R(-1, 9), R(1, 11)]
+    got = S(Interp(overrides={"_jacobi": proj}).call_function(ENERGY, "_max_rel_energy_error", [states, mu0]))
+    if used:
+        chk.check(sp.simplify(got - R(1, 8)) == 0, "C12.e", f"{ENERGY}::_max_rel_energy_error[vanishing reference]",
+                  f"Jacobi history {cs}: the measured drift is {got}, the largest absolute deviation is 1/8", sample=f"Jacobi history {cs} -> 1/8")
+    else:
+        chk.note("C12.e: the Jacobi formula is no longer a nested helper; the vanishing-reference case is not reachable with exact data")
+    chk.count("functions partially evaluated")
+    # the nested formula is the Jacobi constant of the field (same decision as C01.d, on the same construct)
+    from . import c01
+    st = sp.symbols("x y z vx vy vz", real=True)
+    mu = sp.Symbol("mu", positive=True)
+    c = common.jacobi_of_filter(st, mu)
+    x, y, z, vx, vy, vz = st
+    r1 = sp.sqrt((x + mu) ** 2 + y ** 2 + z ** 2)
+    r2 = sp.sqrt((x - 1 + mu) ** 2 + y ** 2 + z ** 2)
+    ref = x ** 2 + y ** 2 + 2 * ((1 - mu) / r1 + mu / r2) - (vx ** 2 + vy ** 2 + vz ** 2)
+    d = sp.simplify(c - ref)
+    chk.check(d.is_number and not d.has(sp.nan), "C12.e", f"{ENERGY}::_max_rel_energy_error._jacobi",
+              f"the quantity whose drift is measured is not the Jacobi constant (up to an additive constant): differs by {short(d)}",
+              sample="C = x^2 + y^2 + 2(1-mu)/r1 + 2mu/r2 - v^2 (+const)")
 
 
 def _e_forwarding(chk):
